@@ -17,9 +17,71 @@ type Cfg struct {
 	CloseSender bool // the (single) sender closes the send side after its last send
 	Cancel      bool // a free canceller thread
 	Recv        int  // -1 drain until closed; 0 nobody receives; m>0 receive m values then leave
+	Any         bool // element type any: the odd values travel as they are, every even one as a nil interface value
+}
+
+// anyScenario: pipe.New[any]; the i-th value sent is i for odd i and a nil interface value for even i. The receiver
+// logs what it gets as i again (a nil stands for the even number whose turn it is), so the ordinary oracle applies.
+func anyScenario(c Cfg) {
+	ctx, cancel := context.WithCancel(context.Background())
+	rcv, snd := pipe.New[any](ctx, c.Cap)
+	var sent env.Shared
+	go func() {
+		defer func() {
+			if r := recover(); r != nil {
+				env.Log("sent-panic", r)
+			}
+		}()
+		for i := 1; i <= c.Sends; i++ {
+			var v any = i
+			if i%2 == 0 {
+				v = nil
+			}
+			snd <- v
+			sent.Add(1)
+			env.Log("sent", i)
+		}
+		if c.CloseSender {
+			close(snd)
+			env.Log("closed")
+		}
+	}()
+	if c.Recv != 0 {
+		go func() {
+			n := 0
+			for x := range rcv {
+				n++
+				switch {
+				case x == nil && n%2 == 0:
+					env.Log("got", n)
+				case x == nil:
+					env.Log("got", -n) // a nil where a number was sent
+				default:
+					env.Log("got", x)
+				}
+				if c.Recv > 0 && n == c.Recv {
+					return
+				}
+			}
+			env.Log("eof")
+		}()
+	}
+	if c.Cancel {
+		go func() {
+			kb := sent.Load()
+			cancel()
+			ka := sent.Load()
+			env.Log("cancel", kb, ka)
+		}()
+	}
+	_ = cancel
 }
 
 func Scenario(c Cfg) {
+	if c.Any {
+		anyScenario(c)
+		return
+	}
 	ctx, cancel := context.WithCancel(context.Background())
 	rcv, snd := pipe.New[int](ctx, c.Cap)
 	var sent env.Shared
